@@ -3,6 +3,7 @@ package sim
 import (
 	"bytes"
 	"fmt"
+	"strings"
 )
 
 // C11 – SMP reports success exactly when the secrets match within one session.
@@ -153,7 +154,7 @@ func c11Run(rc *RunCtx) *Violation {
 		switch r.Pick(wt) {
 		case 0:
 			sec := []int{0, 0, 6, 2, 3, 4, 5, 4, 7, 8, 9, 10, 11}[r.Intn(13)]
-			return Step{K: "smpstart", A: r.Intn(2), B: r.Intn(2), C: sec}, true
+			return Step{K: "smpstart", A: r.Intn(2), B: r.Intn(2), C: sec, D: r.Intn(27)}, true
 		case 1:
 			who := 0
 			if ask[1] && (!ask[0] || r.Bool()) {
@@ -266,8 +267,28 @@ func c11Run(rc *RunCtx) *Violation {
 			if s.B%2 == 1 {
 				q = fmt.Sprintf("question-%d?", s.B)
 			}
+			odd := false
+			if s.D%9 == 7 || s.D%9 == 8 {
+				// questions that cannot travel as they are: a NUL byte inside, or longer than a TLV can hold
+				odd = true
+				q = "who\x00are you?"
+				if s.D%9 == 8 {
+					q = strings.Repeat("why? ", 14000)
+				}
+			}
 			r := w.P[i].SMPStartRaw(q, secretBuf(i, s.C))
 			w.Enqueue(w.P[i], r)
+			if odd {
+				// either the call says it cannot do that, or the peer's user gets asked: it must not
+				// report success to the caller and then leave both sides waiting for ever
+				w.Drain(2000)
+				if r.Err == "" && !ask[1-i] && viol == nil {
+					return rc.Viol("start.not-asked", fmt.Sprintf("%s.StartAuthenticate accepted a question of %d bytes (NUL inside: %v) without an error, but the peer was never asked: both sides now wait for ever", w.P[i].Name, len(q), strings.Contains(q, "\x00")), map[string]string{"question": map[bool]string{true: "nul", false: "long"}[strings.Contains(q, "\x00")]})
+				}
+				if r.Err != "" {
+					run = nil
+				}
+			}
 		case "smpanswer":
 			i := s.A % 2
 			if run == nil || !ask[i] || i == run.init {
